@@ -227,3 +227,60 @@ def equiv_tol(hyp_common: List[Any], left: List[Dict[str, Any]], right: List[Dic
     if "unknown" in (r1, r2):
         return "unknown", None, None
     return "ok", None, None
+
+
+# ----------------------------------------------------------------------------------------------
+# audit of the LPs solved inside a failing call (mechanism of numerical failures)
+
+
+def lp_audit(events: Iterable[Event], limit: int = 40) -> Optional[str]:
+    """Did the LP solver itself fail inside these calls?
+
+    Every recorded linprog event is re-solved exactly over Q (z3).  Returns
+      'lp-solver-wrong-optimum'  when a status-0 answer differs from the exact optimum by more than 1e-6 relative,
+      'lp-solver-gave-up'        when the solver reported no optimum although the LP has one (and nothing worse),
+      None                       when every LP was answered correctly (or none was recorded).
+    The last attempt for an LP (after pacti's own retries) is what counts.
+    """
+    import numpy as np
+
+    lps = [e for e in events if e.op == "linprog" and e.out == "ret"][:limit * 3]
+    # group retries of the same problem (same c, A, b) and keep the last attempt
+    last: Dict[str, Event] = {}
+    for e in lps:
+        try:
+            key = X.canon([e.args.get("c"), e.args.get("A_ub"), e.args.get("b_ub")])
+        except Exception:  # noqa: BLE001
+            continue
+        last[key] = e
+    verdict = None
+    for e in list(last.values())[:limit]:
+        try:
+            lp = e.res["LP"]
+            A = np.array(e.args["A_ub"]["ND"], dtype=float)
+            b = np.array(e.args["b_ub"]["ND"], dtype=float).reshape(-1)
+            c = np.array(e.args["c"]["ND"], dtype=float).reshape(-1)
+            if A.ndim != 2 or A.shape[1] != len(c):
+                continue
+            rows = [{"c": {"q%d" % j: float(A[i][j]) for j in range(A.shape[1]) if A[i][j] != 0}, "k": float(b[i])}
+                    for i in range(len(b))]
+            bnd = e.args.get("bounds")
+            if bnd is None:
+                # scipy's default: every variable >= 0 (the call did not ask for free variables)
+                rows += [{"c": {"q%d" % j: -1.0}, "k": 0.0} for j in range(A.shape[1])]
+            elif bnd != [None, None]:
+                continue  # other bounds are not modelled: no verdict on this LP
+            kind, val = X.lp_opt(rows, {"q%d" % j: float(-c[j]) for j in range(len(c)) if c[j] != 0}, True)
+        except Exception:  # noqa: BLE001
+            continue
+        if kind != "opt":
+            if kind == "infeasible" and lp["status"] == 0:
+                return "lp-solver-wrong-optimum"
+            continue
+        if lp["status"] == 0 and lp["fun"] is not None:
+            got = -float(lp["fun"])
+            if abs(got - float(val)) > 1e-6 * (1 + abs(float(val))):
+                return "lp-solver-wrong-optimum"
+        elif lp["status"] != 0:
+            verdict = "lp-solver-gave-up"
+    return verdict
